@@ -53,6 +53,7 @@ type cronEvent struct {
 	Start   []string `json:"start,omitempty"` // new schedule for edit
 	Bad     string   `json:"bad,omitempty"`
 	GapMs   int      `json:"gapMs,omitempty"` // restart gap / freeze length
+	Gone    int      `json:"gone,omitempty"`  // kill-daemon: 1+index of a DAG whose file is removed between the new daemon's first directory read and the registration of its watch (0: none)
 }
 
 type cronScenario struct {
@@ -213,6 +214,9 @@ func genCronScenario(tp *simrt.Tape, thorough bool) *cronScenario {
 			e.Bad = ks[tp.Draw(simrt.SGen, len(ks))]
 		case "kill-daemon":
 			e.GapMs = pick(tp, 100, 400, 2000, 9000, 30000, 75000, 200000)
+			if chance(tp, 1, 4) {
+				e.Gone = 1 + tp.Draw(simrt.SGen, nd)
+			}
 			if chance(tp, 1, 2) {
 				// shortly after a minute boundary: the restarted daemon evaluates a minute that was already handled
 				e.AtSec = e.AtSec/60*60 + (60-ep.Second())%60 + pick(tp, 1, 3, 8, 20)
@@ -335,7 +339,15 @@ func cronsim(t *testing.T, tp *simrt.Tape, opts RunOpts) *Outcome {
 		op.Proc.W.CountFault("slow_op")
 		return simrt.Fault{Kind: simrt.FSlow, Delay: next.Sub(now) + time.Duration(tp.Draw(simrt.SFault, 60))*10*time.Microsecond}
 	}
+	goneAtStart := -1 // DAG whose file vanishes when the next daemon creates its watcher (see cronEvent.Gone)
+	var removeNow func(i int)
 	cfg.OnOp = func(op *simrt.OpInfo) {
+		if goneAtStart >= 0 && removeNow != nil && op.Kind == "inotify_init" && strings.HasPrefix(op.Proc.Name, "blackdagger:scheduler") {
+			// the daemon has read the directory once and is about to register its watch: no event will tell it
+			i := goneAtStart
+			goneAtStart = -1
+			removeNow(i)
+		}
 		if cw == nil || !strings.HasSuffix(op.Path, ".sock") {
 			return
 		}
@@ -412,6 +424,14 @@ func cronsim(t *testing.T, tp *simrt.Tape, opts RunOpts) *Outcome {
 		}
 		startDaemon()
 		curDaemon := func() *daemonLife { return tl.daemons[len(tl.daemons)-1] }
+		removeNow = func(i int) {
+			if n := len(tl.files[i]); n == 0 || !tl.files[i][n-1].valid {
+				return // not there anyway
+			}
+			fsOf(w).RemoveDirect(dagsDir + "/" + sc.Dags[i].File + ".yaml")
+			tl.files[i] = append(tl.files[i], fileVer{from: time.Now()})
+			w.Probe("file_removed_between_read_and_watch")
+		}
 		// the operator / fault injector
 		inProc(w, "operator", func() {
 			for _, e := range sc.Events {
@@ -442,6 +462,9 @@ func cronsim(t *testing.T, tp *simrt.Tape, opts RunOpts) *Outcome {
 					}
 					dl.to, dl.killed = time.Now(), true
 					simrt.Sleep(time.Duration(e.GapMs) * time.Millisecond)
+					if e.Gone > 0 {
+						goneAtStart = e.Gone - 1
+					}
 					startDaemon()
 				case "freeze-daemon":
 					dl := curDaemon()
